@@ -289,9 +289,10 @@ func cafsLen(r *tr.Rng, leaf int) int {
 }
 
 type cafsObj struct {
-	content []byte
-	key     cafs.Key
-	seed    uint64
+	content  []byte
+	key      cafs.Key
+	seed     uint64
+	leafKeys []string
 }
 
 // cafsPut stores content on fs through a source with the given write plan and records the line.
@@ -319,7 +320,11 @@ func cafsPut(c *ctx, fs cafs.Fs, idx int, seed uint64, n int, plan []int, single
 		f = 1
 	}
 	c.w.Op(op, fmt.Sprintf("ok key=%s written=%d found=%d", res.Key.String(), res.Written, f))
-	return &cafsObj{content: content, key: res.Key, seed: seed}, true
+	var lks []string
+	for q := 0; q+64 <= len(res.Keys); q += 64 {
+		lks = append(lks, hex.EncodeToString(res.Keys[q:q+64]))
+	}
+	return &cafsObj{content: content, key: res.Key, seed: seed, leafKeys: lks}, true
 }
 
 // cafsReadAll drains the object with sequential Reads using the given cyclic buffer sizes.
@@ -574,16 +579,91 @@ func c02(c *ctx) error {
 		// (same seed, other length = prefix), and unrelated ones
 		seeds := []uint64{r.Uint64()%1000 + 1, r.Uint64()%1000 + 1001}
 		nput := 2 + r.Intn(6)
+		var hist []*cafsObj
+		var idx []int
 		for o := 0; o < nput; o++ {
 			seed := seeds[r.Intn(len(seeds))]
 			ln := cafsLen(r, leaf)
 			if r.Intn(3) == 0 {
 				ln = r.Pick(0, leaf, 2*leaf, 3*leaf+5, 5)
 			}
+			// every third put or so stores again a content stored before (after the history below:
+			// over a crash remnant, over a deleted object, over a healthy duplicate)
+			if len(hist) > 0 && r.Intn(3) == 0 {
+				h := hist[r.Intn(len(hist))]
+				seed, ln = h.seed, len(h.content)
+				c.w.Count("reput")
+			}
 			plan, single := cafsChunkPlan(r, ln, leaf)
-			cafsPut(c, fs, o, seed, ln, plan, single)
+			ob, ok := cafsPut(c, fs, o, seed, ln, plan, single)
 			c.w.Op("snapshot", cafsSnapshot(st))
 			c.w.Count(fmt.Sprintf("len_leaves=%d", (ln+leaf-1)/leaf))
+			if ok {
+				hist = append(hist, ob)
+				idx = append(idx, o)
+			}
+			// history between puts: a blob of an earlier object left empty / cut / altered by an
+			// interrupted or faulty upload (crash remnant), or an earlier object deleted
+			if len(hist) > 0 && r.Intn(2) == 0 {
+				j := r.Intn(len(hist))
+				h, hi := hist[j], idx[j]
+				lks := h.leafKeys // as reported by the put (the root blob may be damaged by now)
+				switch r.Intn(4) {
+				case 0: // delete through the same long-lived instance
+					res := "ok"
+					if e := corekit.Recover(func() error { return fs.Delete(context.Background(), h.key) }); e != nil {
+						res = "err"
+					}
+					c.w.Op(fmt.Sprintf("delete obj=%d", hi), res)
+					c.w.Count("hist=delete")
+				default:
+					target, bk := "root", h.key.String()
+					if len(lks) > 0 && r.Intn(3) != 0 {
+						q := r.Intn(len(lks))
+						target, bk = fmt.Sprint(q), lks[q]
+					}
+					cur, present := st.Raw(bk)
+					if !present {
+						break
+					}
+					kind := r.Intn(4)
+					switch {
+					case kind <= 1 || len(cur) == 0: // emptied: what an interrupted upload leaves
+						st.SetRaw(bk, []byte{})
+						c.w.Note(fmt.Sprintf("damage obj=%d blob=%s kind=trunc arg=0", hi, target))
+						c.w.Count("hist=remnant-empty")
+					case kind == 2:
+						to := r.Intn(len(cur))
+						st.SetRaw(bk, append([]byte(nil), cur[:to]...))
+						c.w.Note(fmt.Sprintf("damage obj=%d blob=%s kind=trunc arg=%d", hi, target, to))
+						c.w.Count("hist=remnant-cut")
+					default:
+						bit := r.Intn(len(cur) * 8)
+						nb := append([]byte(nil), cur...)
+						nb[bit/8] ^= 1 << uint(bit%8)
+						st.SetRaw(bk, nb)
+						c.w.Note(fmt.Sprintf("damage obj=%d blob=%s kind=flip arg=%d", hi, target, bit))
+						c.w.Count("hist=remnant-flip")
+					}
+				}
+				c.w.Op("snapshot", cafsSnapshot(st))
+			}
+		}
+		// whatever the history, an object whose latest put succeeded AFTER the last damage to it is
+		// readable from a fresh instance; the model says which reads succeed
+		for j, h := range hist {
+			if j >= 6 {
+				break
+			}
+			fresh, _, e := cafsNewFs(st, leaf, r)
+			if e != nil {
+				continue
+			}
+			res, _ := cafsReadAll(fresh, h.key, []int{leaf + 1})
+			if !strings.HasPrefix(res, "ok ") {
+				res = "err"
+			}
+			c.w.Op(fmt.Sprintf("read obj=%d style=readall bufs=%d", idx[j], leaf+1), res)
 		}
 		c.w.End()
 	})
